@@ -1031,9 +1031,215 @@ def gen_regions():
     txt, _ = translate_shrink_region(A, "blake3_hasher_update_base", strip_comments(body).replace("(uint64_t)", ""), cconsts, True,
                                      [("self->chunk.chunk_counter", "chunk_counter")], "round_down_to_power_of_2")
     o.append(txt)
+    o.append(gen_c_output_plan_body(A))
     o.append("end C\n")
     o.append("end B3.Gen")
     return "\n".join(o) + "\n"
+
+
+# ------------------------------------------------------------------------------------------------
+# G3c: c/blake3.c output_root_bytes as a write plan (which bytes of which output block go where)
+
+W64 = 1 << 64
+
+
+def c_wexpr(e, names):
+    """C size_t / uint64_t expression -> Lean Nat expression with wrap-around made explicit"""
+    k = e[0]
+    if k == "num":
+        return str(e[1])
+    if k == "var":
+        if e[1] not in names:
+            raise ValueError(f"unknown name {e[1]}")
+        return e[1]
+    if k == "paren":
+        return c_wexpr(e[1], names)
+    if k == "neg":
+        if e[1][0] == "num":
+            return str(W64 - e[1][1])
+        raise ValueError("unary minus on a non-literal")
+    if k == "cast":
+        if e[2] in ("uint64_t", "size_t"):
+            return c_wexpr(e[1], names)
+        raise ValueError(f"cast to {e[2]}")
+    if k == "bin":
+        a, b = c_wexpr(e[2], names), c_wexpr(e[3], names)
+        op = e[1]
+        if op == "+":
+            return f"(Arith.w64add {a} {b})"
+        if op == "-":
+            return f"(Arith.w64sub {a} {b})"
+        if op == "*":
+            return f"(Arith.w64mul {a} {b})"
+        if op in ("/", "%"):
+            return f"({a} {op} {b})"
+        if op == "&":
+            return f"({a} &&& {b})"
+        if op == "|":
+            return f"({a} ||| {b})"
+        raise ValueError(f"operator {op}")
+    raise ValueError(f"cannot translate {e}")
+
+
+def c_split_top(s, ch):
+    depth = 0
+    for i, c in enumerate(s):
+        if c in "([":
+            depth += 1
+        elif c in ")]":
+            depth -= 1
+        elif c == ch and depth == 0:
+            return s[:i], s[i + 1:]
+    return None
+
+
+def c_value(s, names):
+    """expression, possibly `a > b ? x : y`"""
+    s = s.strip()
+    q = c_split_top(s, "?")
+    if q:
+        cond, rest = q
+        xy = c_split_top(rest, ":")
+        if not xy:
+            raise ValueError("ternary without ':'")
+        return f"(if {c_cond(cond, names)} then {c_value(xy[0], names)} else {c_value(xy[1], names)})"
+    return c_wexpr(parse_expr(s), names)
+
+
+def c_cond(s, names):
+    s = s.strip()
+    for op, lean in ((">=", "≥"), ("<=", "≤"), ("==", "="), ("!=", "≠"), (">", ">"), ("<", "<")):
+        i = s.find(op)
+        if i > 0 and (op not in (">", "<") or (s[i + 1:i + 2] not in ("=", ">", "<") and s[i - 1] not in ("<", ">"))):
+            return f"({c_value(s[:i], names)} {lean} {c_value(s[i + len(op):], names)})"
+    return f"({c_value(s, names)} ≠ 0)"
+
+
+def c_statements(text):
+    """split a C block into top-level statements; `if (...) {...}` stays one statement"""
+    out = []
+    i = 0
+    n = len(text)
+    while i < n:
+        while i < n and text[i].isspace():
+            i += 1
+        if i >= n:
+            break
+        m = re.match(r"if\s*\(", text[i:])
+        if m:
+            j = match_brace(text, i + m.end() - 1, "(", ")")
+            k = j
+            while text[k].isspace():
+                k += 1
+            if text[k] != "{":
+                raise ValueError("if without a braced block")
+            e = match_brace(text, k)
+            out.append(("if", text[i + m.end():j - 1], text[k + 1:e - 1]))
+            i = e
+            continue
+        j = text.index(";", i)
+        out.append(("stmt", text[i:j].strip()))
+        i = j + 1
+    return out
+
+
+def gen_c_output_plan_body(A):
+    params, body = find_fn(A, "c/blake3.c", r"INLINE\s+void\s+output_root_bytes\s*\(")
+    if not re.match(r"\s*const\s+output_t\s*\*\s*self\s*,\s*uint64_t\s+seek\s*,\s*uint8_t\s*\*\s*out\s*,\s*size_t\s+out_len\s*$", params, re.S):
+        raise TranslationBroken(A, "output_root_bytes: unexpected parameters")
+    body = strip_comments(body)
+    FL = r"(?:self->flags\s*\|\s*ROOT|ROOT\s*\|\s*self->flags|__ROOTFLAGS__)"
+    # a local that only names `self->flags | ROOT` is accepted in the flags position
+    mfl = re.search(r"(?:const\s+)?uint8_t\s+(\w+)\s*=\s*(?:self->flags\s*\|\s*ROOT|ROOT\s*\|\s*self->flags)\s*;", body)
+    if mfl:
+        body = body[:mfl.start()] + body[mfl.end():]
+        body = re.sub(r"\b%s\b" % re.escape(mfl.group(1)), "__ROOTFLAGS__", body)
+    XOF1 = r"^blake3_compress_xof\(\s*self->input_cv\s*,\s*self->block\s*,\s*self->block_len\s*,\s*(.+?)\s*,\s*" + FL + r"\s*,\s*wide_buf\s*\)$"
+    XOFN = r"^blake3_xof_many\(\s*self->input_cv\s*,\s*self->block\s*,\s*self->block_len\s*,\s*(.+?)\s*,\s*" + FL + r"\s*,\s*out\s*,\s*(.+)\)$"
+    MEMCPY = r"^memcpy\(\s*out\s*,\s*wide_buf\s*(?:\+\s*(.+?))?\s*,\s*(.+)\)$"
+    lines = []
+
+    def block(stmts, names, indent, mutable_outer):
+        """emit statements; returns the set of outer variables assigned"""
+        assigned = set()
+        pad = "  " * indent
+        for st in stmts:
+            if st[0] == "if":
+                cond = c_cond(st[1], names)
+                inner = c_statements(st[2])
+                # which outer variables does the block assign?
+                sub_lines_start = len(lines)
+                lines.append(None)   # placeholder for the header
+                inner_names = set(names)
+                asg = block(inner, inner_names, indent + 1, mutable_outer)
+                asg = [v for v in mutable_outer if v in asg]
+                tup = "(" + ", ".join(asg) + ")" if len(asg) != 1 else asg[0]
+                lines[sub_lines_start] = f"{pad}  let {tup} := if {cond} then"
+                lines.append(f"{pad}    {tup}")
+                lines.append(f"{pad}    else {tup}")
+                assigned |= set(asg)
+                continue
+            t = st[1]
+            if t == "":
+                continue
+            if re.match(r"^uint8_t\s+wide_buf\s*\[\s*64\s*\]$", t):
+                continue
+            m = re.match(r"^(?:const\s+)?(?:uint64_t|size_t)\s+(\w+)\s*=\s*(.+)$", t, re.S)
+            if m:
+                lines.append(f"{pad}  let {m.group(1)} := {c_value(m.group(2), names)}")
+                names.add(m.group(1))
+                continue
+            m = re.match(XOF1, t, re.S)
+            if m:
+                lines.append(f"{pad}  let wide_buf : Option Nat := some {c_value(m.group(1), names)}")
+                assigned.add("wide_buf")
+                continue
+            m = re.match(MEMCPY, t, re.S)
+            if m:
+                src = c_value(m.group(1), names) if m.group(1) else "0"
+                lines.append(f"{pad}  let ev := ev ++ [Ev.copy out wide_buf {src} {c_value(m.group(2), names)}]")
+                assigned.add("ev")
+                continue
+            m = re.match(XOFN, t, re.S)
+            if m:
+                lines.append(f"{pad}  let ev := ev ++ [Ev.many out {c_value(m.group(1), names)} {c_value(m.group(2), names)}]")
+                assigned.add("ev")
+                continue
+            m = re.match(r"^(\w+)\s*(\+|-)=\s*(.+)$", t, re.S)
+            if m:
+                v = m.group(1)
+                if v not in names:
+                    raise ValueError(f"assignment to unknown {v}")
+                f = "Arith.w64add" if m.group(2) == "+" else "Arith.w64sub"
+                lines.append(f"{pad}  let {v} := {f} {v} {c_value(m.group(3), names)}")
+                assigned.add(v)
+                continue
+            raise ValueError(f"statement {t!r}")
+        return assigned
+
+    try:
+        stmts = c_statements(body)
+        if not (stmts and stmts[0][0] == "if" and re.match(r"^\s*out_len\s*==\s*0\s*$", stmts[0][1]) and re.match(r"^\s*return\s*;\s*$", stmts[0][2])):
+            raise ValueError("first statement is not `if (out_len == 0) { return; }`")
+        names = {"seek", "out", "out_len"}
+        block(stmts[1:], names, 0, ["out", "out_len", "output_block_counter", "wide_buf", "ev"])
+    except TranslationBroken:
+        raise
+    except Exception as ex:
+        raise TranslationBroken(A, f"output_root_bytes: {ex}")
+    o = ["/-- one write of `output_root_bytes` into the caller's buffer -/",
+         "inductive Ev where",
+         "  | copy (dst : Nat) (blk : Option Nat) (src n : Nat)   -- memcpy(out + dst, wide_buf + src, n); wide_buf = output block `blk` (none = never filled)",
+         "  | many (dst ctr nblocks : Nat)                        -- blake3_xof_many(counter = ctr, out + dst, nblocks)",
+         "deriving DecidableEq, Repr", "",
+         "/-- `output_root_bytes(self, seek, out, out_len)` as the list of writes it performs; `out` is the offset from the",
+         "caller's pointer, all arithmetic is C unsigned 64-bit (wrapping) -/",
+         "def output_root_plan (seek out_len : Nat) : List Ev :=",
+         "  if out_len = 0 then [] else",
+         "  let out := 0", "  let ev : List Ev := []", "  let wide_buf : Option Nat := none"]
+    o += lines
+    o += ["  ev", ""]
+    return "\n".join(o)
 
 # ------------------------------------------------------------------------------------------------
 # G5: published test vectors
